@@ -374,6 +374,7 @@ func genCase(t *rapid.T) (Case, string) {
 	c.Factor = rapid.SampledFrom([]int{0, 0, 1, 10, 1000, 1000000, 3, -10}).Draw(t, "factor")
 	c.SRID = rapid.SampledFrom([]int{4326, 3857, 1, 0x7fffffff, 0}).Draw(t, "srid")
 	c.Proj = rapid.SampledFrom([]string{"toMercator", "toWGS84", "affine"}).Draw(t, "proj")
+	c.Layout = rapid.SampledFrom([]string{"shared", "shared", "spare", "spare", "plain"}).Draw(t, "layout")
 	return c, class
 }
 
@@ -385,6 +386,9 @@ func classify(c Case, class string) {
 	g := c.G.V
 	stats.Class("source:" + class)
 	stats.Class("world:" + c.World)
+	if hasSlice(g) {
+		stats.Class("layout:" + c.Layout)
+	}
 	stats.Class("kind:" + gen.KindOf(g))
 	if isTypedNil(g) {
 		stats.Class("value:typed nil")
